@@ -77,6 +77,36 @@ def reexpanded (σ : Env) (b : Bytes) : Option Bytes :=
   | .ok b' => some b'
   | .error _ => none
 
+def hasLineBreak (b : Bytes) : Bool := b.any fun x => x == 10 || x == 13
+
+/-- the format's own literal text contains a line break (an operator may write a multi-line format) -/
+def litsHaveLineBreak (fmt : Bytes) : Bool :=
+  match parseFmt fmt with
+  | none => true
+  | some segs => segs.any fun s => match s with
+    | .lit b => hasLineBreak b
+    | .ph k => hasLineBreak k
+
+/-- some text that net/http delivers undecoded (and therefore free of CR/LF on a real connection)
+or that the operator controls nevertheless contains one -/
+def pairHasLineBreak (o : Option (Bytes × Bytes)) : Bool :=
+  match o with
+  | some (a, b) => hasLineBreak a || hasLineBreak b
+  | none => false
+
+def hdrHasLineBreak (h : List (Bytes × List Bytes)) : Bool := h.any fun p => p.2.any hasLineBreak
+
+/-- keys whose value is outside the model -/
+def extKeys : List String := opaqueKeys ++ latencyKeys ++ tlsKeys ++ certKeys
+
+def envHasLineBreak (σ : Env) : Bool :=
+  hasLineBreak σ.empty || hdrHasLineBreak σ.reqHdr || hdrHasLineBreak (σ.respHdr.getD []) ||
+  σ.cookies.any (fun p => hasLineBreak p.2) || σ.osEnv.any (fun p => hasLineBreak p.2) ||
+  hasLineBreak σ.method || hasLineBreak σ.host || hasLineBreak σ.proto || hasLineBreak σ.remoteAddr ||
+  pairHasLineBreak σ.hostSplit || pairHasLineBreak σ.remoteSplit ||
+  hasLineBreak σ.origRawQuery || hasLineBreak σ.origURI || hasLineBreak σ.curURI || hasLineBreak σ.requestID ||
+  extKeys.any fun k => hasLineBreak (σ.ext (asc k))
+
 def verdict (σ : Env) (fmt : Bytes) (o : Observed) : String :=
   match o with
   | .panic => "bad:panic:Replace panicked"
@@ -84,7 +114,9 @@ def verdict (σ : Env) (fmt : Bytes) (o : Observed) : String :=
     match expected σ fmt with
     | .error _ => "bad:spec-undefined:the single-pass rendering is undefined for this format"
     | .ok want =>
-      if b = want then "ok"
+      if hasLineBreak b && !(litsHaveLineBreak fmt) && !(envHasLineBreak σ) then
+        "bad:line-split:a value put a CR or LF into the output although neither the format nor any header, cookie or host text has one"
+      else if b = want then "ok"
       else if some b = reexpanded σ want then "bad:rescanned:inserted request text was expanded again"
       else "bad:not-single-pass:output differs from literals ++ values"
 
